@@ -1,36 +1,169 @@
 """R1v VARIANT-CONSISTENCY: presence of the degree bound on the label and presence of the shifted commitment must be
 checked against each other with a refusal.
 
-Either (a) a comparison (==, !=) of a variant observation of each, whose result reaches the outcome, or (b) an
-aborting `unwrap` / `expect` of the shifted commitment inside a branch arm controlled by a variant observation of
-the degree bound. Without it a label that claims a bound while the shifted part was dropped is accepted unbounded."""
+Accepted forms: (a) a comparison (==, !=) of a presence observation of each whose result reaches the outcome;
+(b) an aborting `unwrap` / `expect` of the shifted commitment inside a branch arm controlled by a presence test of
+the bound; (c) a refusal (abort or returned `Err`) on a path on which the two presence tests came out *differently*
+(the `_ => panic!()` arm of a `match (bound, shifted)`). Without one of them a label that claims a bound while the
+shifted part was dropped is accepted unbounded."""
 from collections import deque
 
-from ..engine import short, where_of
-from ..flow import DATA, ALIAS, MOVE, OUTCOME, DISCR
+from ..flow import DATA, MOVE, OUTCOME
 from . import lenguard as LG
 from . import meet as M
 
+COPY_CALLS = ("as_ref", "clone", "copied", "cloned", "as_mut", "as_deref")
 
-def variant_observations(g, field_node):
-    """nodes holding is_some / discriminant observations of plain copies of the field, closed under data flow."""
-    copies = {field_node}
+
+def option_copies(g, field_node):
+    """locals holding a plain copy of (a reference to) the Option read from the field; tuple aggregates that hold
+    such a copy in one component are returned separately as {(body, local): {component indices}}."""
+    f = g.facts
+    copies = set()
     dq = deque([field_node])
-    seeds = set()
+    seen = {field_node}
     while dq:
         n = dq.popleft()
         for e in g.fwd.get(n, ()):
-            if e.kind != DATA or e.dst == OUTCOME:
+            if e.kind != DATA or e.dst == OUTCOME or e.dst in seen:
                 continue
-            if e.op in (DISCR, "fieldshape"):
-                seeds.add(e.dst)
+            if not (isinstance(e.dst, tuple) and len(e.dst) == 2 and e.dst[0] in f.bodies and e.dst[1] >= 0):
                 continue
             ok = e.op in (MOVE, "field", "hof") or (e.op == "foreign" and LG._is_result_edge(g, e) and
-                                                    LG._callee_name(g, e) in ("as_ref", "clone", "copied", "cloned", "as_mut"))
-            if ok and e.dst not in copies and isinstance(e.dst, tuple) and len(e.dst) == 2:
-                copies.add(e.dst)
-                dq.append(e.dst)
-    return LG.data_closure(g, seeds, limit=300), copies
+                                                    LG._callee_name(g, e) in COPY_CALLS)
+            if not ok:
+                continue
+            ty = g.node_ty(e.dst) or ""
+            if "Option<" not in ty or ty.lstrip("&mut ").startswith("("):
+                continue
+            seen.add(e.dst)
+            copies.add(e.dst)
+            dq.append(e.dst)
+    tuples = {}
+    for bid in g.scope:
+        b = f.bodies[bid]
+        for blk in b.blocks:
+            for st in blk["stmts"]:
+                rv = st["rv"]
+                if rv.get("k") == "agg" and rv.get("ak") == "tuple" and not st["dst"]["p"]:
+                    for j, o in enumerate(rv["ops"]):
+                        if o["k"] in ("copy", "move") and not o["pl"]["p"] and (bid, o["pl"]["l"]) in copies:
+                            tuples.setdefault((bid, st["dst"]["l"]), set()).add(j)
+    return copies, tuples
+
+
+def presence_observations(g, copies, tuples):
+    """{(body, local): polarity}: locals holding the discriminant (polarity 1: value 1 means Some) or the result of
+    is_some (1) / is_none (0) of a copy."""
+    f = g.facts
+    obs = {}
+    for bid in g.scope:
+        b = f.bodies[bid]
+        for i, blk in enumerate(b.blocks):
+            for st in blk["stmts"]:
+                rv = st["rv"]
+                if rv.get("k") != "discr" or st["dst"]["p"]:
+                    continue
+                pl = rv["pl"]
+                fields = [e for e in pl["p"] if isinstance(e, dict) and "f" in e]
+                if (bid, pl["l"]) in copies and not fields:
+                    obs[(bid, st["dst"]["l"])] = 1
+                elif (bid, pl["l"]) in tuples and len(fields) == 1 and fields[0]["f"] in tuples[(bid, pl["l"])]:
+                    obs[(bid, st["dst"]["l"])] = 1
+            t = blk["term"]
+            if t["k"] == "call" and t["args"] and t["args"][0]["k"] in ("copy", "move") and not t["dst"]["p"]:
+                nm = (t.get("callee") or "").rsplit("::", 1)[-1]
+                if nm in ("is_some", "is_none") and (bid, t["args"][0]["pl"]["l"]) in copies:
+                    obs[(bid, t["dst"]["l"])] = 1 if nm == "is_some" else 0
+    # plain moves of an observation
+    changed = True
+    while changed:
+        changed = False
+        for bid in g.scope:
+            b = f.bodies[bid]
+            for blk in b.blocks:
+                for st in blk["stmts"]:
+                    rv = st["rv"]
+                    if rv.get("k") == "use" and not st["dst"]["p"] and rv["ops"][0]["k"] in ("copy", "move") \
+                            and not rv["ops"][0]["pl"]["p"]:
+                        s = (bid, rv["ops"][0]["pl"]["l"])
+                        d = (bid, st["dst"]["l"])
+                        if s in obs and d not in obs:
+                            obs[d] = obs[s]
+                            changed = True
+    return obs
+
+
+def _targets(t, value):
+    """successor blocks of a switch terminator for the given operand value."""
+    out = [tb for (v, tb) in t.get("targets", []) if v == value]
+    if not out and t.get("otherwise") is not None:
+        out = [t["otherwise"]]
+    return out
+
+
+def _switches(b, obs, bid):
+    out = []
+    for i, blk in enumerate(b.blocks):
+        t = blk["term"]
+        if t["k"] == "switch" and t["op"]["k"] in ("copy", "move") and not t["op"]["pl"]["p"] and (bid, t["op"]["pl"]["l"]) in obs:
+            out.append((i, t, obs[(bid, t["op"]["pl"]["l"])]))
+    return out
+
+
+def _reach(b, starts, stop):
+    succ = b.succ()
+    seen = set()
+    st = list(starts)
+    while st:
+        x = st.pop()
+        if x in seen or x == stop:
+            continue
+        seen.add(x)
+        st.extend(succ[x])
+    return seen
+
+
+def mismatch_refusal(g, odb, osc):
+    """a refusing block reached with the first test saying `present` and the second `absent` or the other way round."""
+    f = g.facts
+    for bid in sorted(g.scope):
+        b = f.bodies[bid]
+        s1s = _switches(b, odb, bid)
+        s2s = _switches(b, osc, bid)
+        if not s1s or not s2s:
+            continue
+        refusing = set(b.diverging())
+        for i, blk in enumerate(b.blocks):
+            for st in blk["stmts"]:
+                rv = st["rv"]
+                if rv.get("k") == "agg" and rv.get("adt") == "std::result::Result" and rv.get("variant") == "Err":
+                    refusing.add(i)
+                # early negative verdicts written to the return place: `return None`, `return Ok(false)`, `return false`
+                if st["dst"]["l"] == 0 and not st["dst"]["p"]:
+                    if rv.get("k") == "agg" and rv.get("variant") == "None":
+                        refusing.add(i)
+                    ops = rv.get("ops", [])
+                    if rv.get("k") in ("agg", "use") and len(ops) == 1 and ops[0]["k"] == "const" and ops[0].get("val") in (0, False, "false") \
+                            and (ops[0].get("ty") == "bool"):
+                        refusing.add(i)
+        for (first, second) in ((s1s, s2s), (s2s, s1s)):
+            for (i1, t1, p1) in first:
+                for (i2, t2, p2) in second:
+                    if i1 == i2:
+                        continue
+                    for present in (1, 0):
+                        v1 = present if p1 == 1 else 1 - present          # switch value meaning "first is present/absent"
+                        v2 = (1 - present) if p2 == 1 else present        # second has the opposite presence
+                        for a in _targets(t1, v1):
+                            if not (b.dominates(a, i2) or a == i2):
+                                continue
+                            for c in _targets(t2, v2):
+                                region = _reach(b, [c], i1)
+                                hit = [r for r in region if r in refusing and b.dominates(c, r)]
+                                if hit:
+                                    return b.blocks[hit[0]]["term"].get("span") or b.span
+    return None
 
 
 def check(ctx, anchor, db_field, sc_field):
@@ -38,8 +171,12 @@ def check(ctx, anchor, db_field, sc_field):
     f = ctx.facts
     if db_field not in g.fwd or sc_field not in g.fwd:
         return False, "degree bound or shifted commitment is never read", anchor.body.span
-    vdb, _ = variant_observations(g, db_field)
-    vsc, sc_copies = variant_observations(g, sc_field)
+    cdb, tdb = option_copies(g, db_field)
+    csc, tsc = option_copies(g, sc_field)
+    odb = presence_observations(g, cdb, tdb)
+    osc = presence_observations(g, csc, tsc)
+    vdb = LG.data_closure(g, set(odb), limit=300)
+    vsc = LG.data_closure(g, set(osc), limit=300)
     # (a) comparison of the two presences
     for (bid, blk, l, r, res, span) in M.comparison_sites(g, equality_only=True):
         if (any(n in vdb for n in l) and any(n in vsc for n in r)) or (any(n in vsc for n in l) and any(n in vdb for n in r)):
@@ -47,39 +184,20 @@ def check(ctx, anchor, db_field, sc_field):
             if g.last_goal is not None:
                 return True, "presence of the bound and of the shifted commitment are compared at %s" % span, span
     # (b) unwrap of the shifted commitment under a test of the bound
+    from .refusal import controlling_conditions
     for bid in sorted(g.scope):
         b = f.bodies[bid]
-        cd = None
         for i, t in b.calls():
             nm = (t.get("callee") or "").rsplit("::", 1)[-1]
             if nm not in ("unwrap", "expect") or not t["args"] or t["args"][0]["k"] not in ("copy", "move"):
                 continue
-            if (bid, t["args"][0]["pl"]["l"]) not in sc_copies:
+            if (bid, t["args"][0]["pl"]["l"]) not in csc:
                 continue
-            from .refusal import controlling_conditions
-            if controlling_conditions(g, bid, i) & vdb:
+            if controlling_conditions(g, bid, i) & set(odb):
                 return True, "the shifted commitment is unwrapped (aborting if absent) under a test of the bound at %s" % t["span"], t["span"]
-    # (c) a refusal (abort, or construction of an error) controlled by tests of both presences, e.g. the
-    #     `_ => panic!()` / `_ => return Err(..)` arm of a `match (bound, shifted)`
-    from .refusal import controlling_conditions
-    for (bid, i, kind) in g.sink_sites:
-        b = f.bodies[bid]
-        t = b.blocks[i]["term"]
-        conds = set(controlling_conditions(g, bid, i))
-        if t["k"] in ("switch", "assert") and t["op"]["k"] in ("copy", "move"):
-            conds.add((bid, t["op"]["pl"]["l"]))
-        if conds & vdb and conds & vsc:
-            return True, "a refusal at %s is controlled by tests of both presences" % t.get("span"), t.get("span")
-    for bid in sorted(g.scope):
-        b = f.bodies[bid]
-        for i, blk in enumerate(b.blocks):
-            for st in blk["stmts"]:
-                rv = st["rv"]
-                if rv.get("k") == "agg" and rv.get("adt") == "std::result::Result" and rv.get("variant") == "Err":
-                    conds = controlling_conditions(g, bid, i)
-                    if conds & vdb and conds & vsc:
-                        g.reach([(bid, st["dst"]["l"])], want=OUTCOME)
-                        if g.last_goal is not None:
-                            return True, "an error built under tests of both presences is returned (line %s)" % st.get("line"), b.span
+    # (c) a refusal on a path where the two tests disagree
+    sp = mismatch_refusal(g, odb, osc)
+    if sp is not None:
+        return True, "a refusal at %s is reached exactly when one of the two is present and the other is not" % sp, sp
     return False, ("no refusal ties the presence of the degree bound to the presence of the shifted commitment: a label "
                    "claiming a bound is accepted even if the shifted part was dropped"), anchor.body.span
